@@ -91,7 +91,7 @@ def build(repo, tier):
     cs = c12_contracts(None)
     units.append(Unit('C19/py/PrettyPrintingInterpreter.print_stack', print_stack_unit(repo, cs)))
     for m in STEP_NAME:
-        if m in ('metavar', 'instantiate', 'instantiate_pattern'):
+        if m in ('instantiate', 'instantiate_pattern'):
             continue            # their step lines are built by loops / joins over symbolic-length containers: bounded stand-in only
         for ph in PHASES_OF.get(m, ['Proof']):
             units.append(Unit(f'C19/py/PrettyPrintingInterpreter.{m}/{ph}', pretty_method_unit(repo, cs, m, ph), info={'split_depth': 1}))
@@ -105,7 +105,7 @@ def build(repo, tier):
                         'str.format semantics: placeholders are found with string.Formatter().parse on the format string in which symbolic pieces (str(var), symbol names) are brace-free',
                         'rendering of an argument is an opaque string; "printed differently" is decided up to the delimiters of the format string (str.format does not guarantee unambiguous concatenation)',
                         'nary_app is checked for arities 0..12, which includes two-digit placeholders (bounded in the arity only; symbol and cell flag arbitrary)',
-                        'binary side: one instruction per interpreter call is C04; pretty side: 21 of the 24 decorator-generated methods of PrettyPrintingInterpreter are executed through the real decorator (one step line, starting with the instruction name, then only tab-indented lines; print_stack under a loop contract); metavar / instantiate / instantiate_pattern and whole files: bounded stand-in only', 'renderings of patterns, symbol names, numbers and the id text passed to load() contain no line break'],
+                        'binary side: one instruction per interpreter call is C04; pretty side: 22 of the 24 decorator-generated methods of PrettyPrintingInterpreter are executed through the real decorator (one step line, starting with the instruction name, then only empty or tab-indented lines; print_stack and the write_list loop of metavar under loop contracts); instantiate / instantiate_pattern and whole files: bounded stand-in only', 'renderings of patterns, symbol names, numbers and the id text passed to load() contain no line break'],
                     functions=fns)
 
     def standin(tier, seed):
@@ -212,6 +212,24 @@ def _c19(seed):
                                 % (nt.label, ap2, ap, shown), done)
                 seen[key] = (ap, shown)
                 done += 1
+    # one call = one step, also for metavariables with several constraint lists
+    from proof_generation.pretty_printing_interpreter import PrettyPrintingInterpreter
+    from proof_generation.serializing_interpreter import SerializingInterpreter
+    from proof_generation.interpreter import ExecutionPhase
+    import itertools
+    choices = [(), (1,), (1, 2)]
+    for ls in itertools.product(choices, repeat=5):
+        if sum(1 for l in ls if l) > 3 or set(ls[4]) & set(ls[0]):
+            continue
+        kw = dict(e_fresh=tuple(EVar(i) for i in ls[0]), s_fresh=tuple(SVar(i) for i in ls[1]), positive=tuple(SVar(i) for i in ls[2]),
+                  negative=tuple(SVar(i + 2) for i in ls[3]), application_context=tuple(EVar(i + 2) for i in ls[4]))
+        txt, bts = io.StringIO(), io.BytesIO()
+        pi, si = PrettyPrintingInterpreter(ExecutionPhase.Gamma, txt), SerializingInterpreter(ExecutionPhase.Gamma, bts)   # (kept alive: they close their stream when collected)
+        pi.metavar(0, **kw)
+        si.metavar(0, **kw)
+        if steps(txt.getvalue()) != decode(bts.getvalue()):
+            return ('fail', 'metavar(0, %r): the binary side emits %r, the pretty side lists the steps %r' % (kw, decode(bts.getvalue()), steps(txt.getvalue())), done)
+        done += 1
     big = App(App(Symbol('cfg'), long_chain(12)), long_chain(14))
     la = ProofExp(axioms=[long_chain(30)], claims=[long_chain(30)])
     la._proof_expressions = [la.load_axiom(la._axioms[0])]
@@ -238,6 +256,7 @@ def render_bounded(root, tier, seed):
     from vc import replay as rp
     jobs = [{'expr': f'_c19({seed})'}]
     real = rp.run_real(jobs, prelude=RENDER_PRELUDE, root=root, timeout=1500)[0]
+    rp.check_driver(real)
     if not real['ok']:
         return {'expr': jobs[0]['expr'], 'real': real, 'failed_clause': 'bounded driver raised: ' + str(real.get('exc'))}, 0
     d = rp.repr_to_data(real['repr'])
